@@ -23,40 +23,62 @@ from snaxc.dialects import accfg
 State = dict[str, SSAValue]
 
 
-def infer_state_of(state_var: SSAValue) -> State:
+def infer_state_of(state_var: SSAValue, _assume: dict[SSAValue, State] | None = None) -> State:
     """
     Entrance function of the inference pass.
 
     This walks up the def-use chain to compute all values
     that are guaranteed to be set in this state.
+
+    `_assume` maps loop-carried block arguments to the state assumed for them while
+    the loop body they belong to is being inspected (used to resolve the loop back-edge).
     """
+    if _assume is not None and state_var in _assume:
+        return dict(_assume[state_var])
     owner = state_var.owner
     match owner:
         case accfg.SetupOp(in_state=None) as setup_op:
             return {name: val for name, val in setup_op.iter_params()}
         case accfg.SetupOp(in_state=st) as setup_op if st is not None:
-            in_state = infer_state_of(st)
+            in_state = infer_state_of(st, _assume)
             in_state.update(dict(setup_op.iter_params()))
             return in_state
         case scf.IfOp() as if_op:
-            return state_intersection(*infer_states_for_if(if_op, state_var))
+            return state_intersection(*infer_states_for_if(if_op, state_var, _assume))
         case scf.ForOp() as for_op:
             yield_op = for_op.body.block.last_op
             assert isinstance(yield_op, scf.YieldOp)
             assert state_var in for_op.results  # this must be true because state_var.owner == for_op
-            return infer_state_of(yield_op.operands[for_op.results.index(state_var)])
+            idx = for_op.results.index(state_var)
+            # the loop may run zero times, so only keep what holds on entry *and* after the last iteration
+            return state_intersection(
+                infer_state_of(yield_op.operands[idx], _assume),
+                infer_state_of(for_op.iter_args[idx], _assume),
+            )
         case Block() as block:
             match block.parent_op():
                 case scf.ForOp() as for_op:
                     assert isinstance(state_var, BlockArgument)  # must be a block argument for owner to be a block!
-                    return infer_state_of(for_op.iter_args[state_var.index - 1])
+                    # at the loop head we see the entry state on the first iteration, and the yielded state
+                    # on all following iterations, so only keep what holds in both.
+                    entry = infer_state_of(for_op.iter_args[state_var.index - 1], _assume)
+                    yield_op = for_op.body.block.last_op
+                    assert isinstance(yield_op, scf.YieldOp)
+                    # state at the yield, assuming the entry state at the loop head. Every field is either
+                    # passed through from the loop head or overwritten in the body, so one step is a fixpoint.
+                    assumed = dict(_assume or {})
+                    assumed[state_var] = entry
+                    yielded = infer_state_of(yield_op.operands[state_var.index - 1], assumed)
+                    return state_intersection(entry, yielded)
                 case _:
                     return {}
         case _:
             raise ValueError(f"Cannot infer state for op {owner.name}")
 
 
-def infer_states_for_if(op: scf.IfOp, state: SSAValue) -> tuple[State, State]:
+def infer_states_for_if(
+    op: scf.IfOp, state: SSAValue, _assume: dict[SSAValue, State] | None = None
+) -> tuple[State, State]:
     """
     Walk both sides of the if/else block and return the computed
     states for the given state SSA value (`state`)
@@ -71,7 +93,7 @@ def infer_states_for_if(op: scf.IfOp, state: SSAValue) -> tuple[State, State]:
         assert isinstance(yield_op, scf.YieldOp)
         # we know the yield op has the same number of operands as the
         # scf.if has results, so [idx] must be defined
-        states.append(infer_state_of(yield_op.operands[idx]))
+        states.append(infer_state_of(yield_op.operands[idx], _assume))
     assert len(states) == 2
     return states[0], states[1]
 
